@@ -433,6 +433,18 @@ pub unsafe fn do_exec<F: PreExec>(
     e.into()
 }
 
+/// Gives back `fd` if it isn't one of the standard streams' numbers, otherwise a duplicate that isn't.
+#[inline]
+fn above_std_streams(fd: RawFd) -> Result<RawFd> {
+    const FIRST_ABOVE: RawFd = RawFd::comptime_checked_new(3);
+    if fd >= FIRST_ABOVE {
+        Ok(fd)
+    } else {
+        // The child execs or exits, the duplicate doesn't outlive it.
+        Ok(rusl::unistd::fcntl_dupfd_cloexec(fd, FIRST_ABOVE)?)
+    }
+}
+
 #[inline]
 #[expect(clippy::too_many_arguments)]
 unsafe fn do_spawn<F: PreExec>(
@@ -462,17 +474,32 @@ unsafe fn do_spawn<F: PreExec>(
     if child_pid == 0 {
         // Executing as child process
         drop(read_guard);
+        let mut write_pipe = write_pipe;
         // Nothing may return from here, that would run the caller's code in the child.
         // A step that fails is reported to the parent through the pipe, like a failed exec.
         let setup: Result<()> = (|| {
-            if let Some(fd) = theirs.stdin.fd() {
-                rusl::unistd::dup2(fd, STDIN)?;
+            // If the caller had closed a standard stream, a descriptor that's still needed here
+            // can sit on 0..=2, where a `dup2` onto that number would replace it, move those up.
+            write_pipe = above_std_streams(write_pipe)?;
+            let targets = [STDIN, STDOUT, STDERR];
+            let mut sources = [theirs.stdin.fd(), theirs.stdout.fd(), theirs.stderr.fd()];
+            for (source, target) in sources.iter_mut().zip(targets) {
+                if let Some(fd) = source {
+                    if *fd != target {
+                        *fd = above_std_streams(*fd)?;
+                    }
+                }
             }
-            if let Some(fd) = theirs.stdout.fd() {
-                rusl::unistd::dup2(fd, STDOUT)?;
-            }
-            if let Some(fd) = theirs.stderr.fd() {
-                rusl::unistd::dup2(fd, STDERR)?;
+            for (source, target) in sources.into_iter().zip(targets) {
+                if let Some(fd) = source {
+                    if fd == target {
+                        // Already in place, `dup2` onto itself is an error and wouldn't
+                        // clear close-on-exec, which is all that's needed.
+                        rusl::unistd::fcntl_set_cloexec(fd, false)?;
+                    } else {
+                        rusl::unistd::dup2(fd, target)?;
+                    }
+                }
             }
             if let Some(cwd) = cwd {
                 rusl::unistd::chdir(cwd)?;
